@@ -5,7 +5,7 @@ COMMON_TB = []
 
 PROPS = {
     "C09": {
-        "lean_modules": ["JrpcProofs.Props.C09", "JrpcProofs.Facts.Codes", "JrpcProofs.Facts.Wire", "JrpcProofs.Facts.Dispatch", "JrpcProofs.Facts.Framing", "JrpcProofs.Facts.Call", "JrpcProofs.Facts.Cancel"],
+        "lean_modules": ["JrpcProofs.Props.C09", "JrpcProofs.Facts.Codes", "JrpcProofs.Facts.Wire", "JrpcProofs.Facts.Dispatch", "JrpcProofs.Facts.Framing", "JrpcProofs.Facts.Call", "JrpcProofs.Facts.Cancel", "JrpcProofs.Facts.Interp"],
         "assumptions": [
             "encoding/json is an oracle: the harness tells the model, per params element, which declared types it decodes into",
             "message texts of library errors are not compared (codes, ids, shape, status and handler invocations are)",
@@ -23,7 +23,7 @@ PROPS = {
         "assumptions": ["net/http delivers header and form values as documented; permissions are compared for equality only"],
     },
     "C10": {
-        "lean_modules": ["JrpcProofs.Props.C10", "JrpcProofs.Facts.Frames", "JrpcProofs.Facts.Codes", "JrpcProofs.Facts.Framing"],
+        "lean_modules": ["JrpcProofs.Props.C10", "JrpcProofs.Facts.Frames", "JrpcProofs.Facts.Codes", "JrpcProofs.Facts.Framing", "JrpcProofs.Facts.Interp"],
         "assumptions": [
             "gorilla/websocket delivers whole messages and closes the connection itself on WebSocket-level protocol violations",
             "encoding/json classifies each params element (shape, uint64-decodability) — computed by the harness with the real decoder",
@@ -32,7 +32,7 @@ PROPS = {
         "timeout": 1500,
     },
     "C05": {
-        "lean_modules": ["JrpcProofs.Props.C05", "JrpcProofs.Facts.Backoff", "JrpcProofs.Facts.ErrTypes", "JrpcProofs.Facts.Options", "JrpcProofs.Facts.Corr", "JrpcProofs.Facts.Call"],
+        "lean_modules": ["JrpcProofs.Props.C05", "JrpcProofs.Facts.Backoff", "JrpcProofs.Facts.ErrTypes", "JrpcProofs.Facts.Options", "JrpcProofs.Facts.Corr", "JrpcProofs.Facts.Call", "JrpcProofs.Facts.Interp"],
         "assumptions": [
             "float64 arithmetic of backoff.next is modelled exactly over the rationals; the differential check allows a relative slack of 2^-40 + 1 ns",
             "rand.Float64() lies in [0,1)",
@@ -91,7 +91,7 @@ PROPS = {
         "timeout": 1500,
     },
     "C02": {
-        "lean_modules": ["JrpcProofs.Props.C02", "JrpcProofs.Lemmas.Corr", "JrpcProofs.Facts.Corr", "JrpcProofs.Facts.Frames", "JrpcProofs.Facts.OneShot", "JrpcProofs.Facts.Writers", "JrpcProofs.Facts.Call"],
+        "lean_modules": ["JrpcProofs.Props.C02", "JrpcProofs.Lemmas.Corr", "JrpcProofs.Facts.Corr", "JrpcProofs.Facts.Frames", "JrpcProofs.Facts.OneShot", "JrpcProofs.Facts.Writers", "JrpcProofs.Facts.Call", "JrpcProofs.Facts.Interp"],
         "assumptions": [
             "hooks only delay goroutines; two log entries written by different goroutines around one channel rendezvous may come in either order and are reconciled by the replayer (tau steps are counted in the evidence)",
             "ids of calls that are inside doRequest at the same time differ (id counter; int64 to float64 keys are injective below 2^53 calls)",
@@ -111,7 +111,7 @@ PROPS = {
         "timeout": 2400,
     },
     "C04": {
-        "lean_modules": ["JrpcProofs.Props.C04", "JrpcProofs.Lemmas.Corr", "JrpcProofs.Facts.Corr", "JrpcProofs.Facts.Backoff", "JrpcProofs.Facts.Writers", "JrpcProofs.Facts.Call", "JrpcProofs.Facts.OneShot"],
+        "lean_modules": ["JrpcProofs.Props.C04", "JrpcProofs.Lemmas.Corr", "JrpcProofs.Facts.Corr", "JrpcProofs.Facts.Backoff", "JrpcProofs.Facts.Writers", "JrpcProofs.Facts.Call", "JrpcProofs.Facts.OneShot", "JrpcProofs.Facts.Interp"],
         "assumptions": [
             "hooks only delay goroutines; two log entries written by different goroutines around one channel rendezvous may come in either order and are reconciled by the replayer (tau steps are counted in the evidence)",
             "ids of calls that are inside doRequest at the same time differ (id counter; int64 to float64 keys are injective below 2^53 calls)",
